@@ -382,6 +382,10 @@ class CallMixin:
                 return o.dictkeys[args[0].const]
         res = self._ext_result(spec, "." + name, recv, args, kwargs, deps, node)
         self._ext_mutations(spec, "." + name, recv, args, kwargs, node)
+        if name in ("transform", "fit_transform", "inverse_transform") and args and self._inplace_estimator(recv):
+            # sklearn transformers built with copy=False work on their operand in place and return it
+            self._mut_store(args[0], "mutcall:%s(copy=False)" % name, EMPTY, node)
+            res = Val(refs=args[0].refs, locs=args[0].locs, deps=res.deps, tags=res.tags)
         is_draw = spec.get("draw") and any(self.obj(r).cls == "ext:numpy.random.Generator" for r in recv.refs)
         if spec.get("draw") and not is_draw and recv.locs and not recv.refs:
             is_draw = any(steps and steps[-1] == ".rng" for _, steps in recv.locs)
@@ -391,6 +395,19 @@ class CallMixin:
         self.emit("ext", node, name="." + name, recv=recv, args=args, kwargs=kwargs, starkw=starkw, result=res,
                   spec=spec)
         return res
+
+    def _inplace_estimator(self, recv: Val) -> bool:
+        for r in recv.refs:
+            o = self.obj(r)
+            if not (o.cls or "").startswith("ext:sklearn."):
+                continue
+            ck = o.fields.get("<ctor-kwargs>")
+            if ck is None or ck.extra is None:
+                continue
+            cp = ck.extra[1].get("copy")
+            if cp is not None and not (cp.has_const and cp.const is True):
+                return True
+        return False
 
     def is_label_collection(self, v: Val) -> bool:
         if "labels" in v.tags:
